@@ -94,7 +94,7 @@ CHECKS = {
   "DESIGN.md section 5 C18"),
  "C14": ("exploration",
   "runtime monitoring: real client to real server round trip; field-wise comparison at the recording backend; refusals attributed to encoding only inside the stated value domain",
-  "Every Unicode scalar value (quick: all up to U+07FF, all class boundaries, every 257th above; thorough: all) is placed in ORCPT(utf-8) against servers with and without SMTPUTF8 (unitext vs xtext form), every 7-bit value in ENVID / ORCPT(rfc822) / AUTH, all short strings over thirteen encoding-significant characters in every string option, all NOTIFY sets and orders, RET, SIZE up to 2^62, RRVS times with zones and sub-second parts, and all option-presence subsets; values accepted by the client API must arrive identically, and a server refusal of an in-domain value is an encoding fault.",
+  "Every Unicode scalar value (quick: all up to U+07FF, all class boundaries, every 61st above; thorough: all) is placed in ORCPT(utf-8) against servers with and without SMTPUTF8 (unitext vs xtext form), every 7-bit value in ENVID / ORCPT(rfc822) / AUTH, all short strings over thirteen encoding-significant characters in every string option, all NOTIFY sets and orders, RET, SIZE up to 2^62, RRVS times with zones and sub-second parts, and all option-presence subsets; values accepted by the client API must arrive identically, and a server refusal of an in-domain value is an encoding fault.",
   "MailOptions.Body not judged; quoted local-parts may arrive unquoted; control characters are judged for silent corruption only.",
   "DESIGN.md section 5 C14"),
  "C15": ("exploration",
